@@ -397,7 +397,22 @@ def _ax_exp(x, y):
 
 @_ax("log")
 def _ax_log(x, y):
-    return [z3.Implies(x == 1, y == 0), z3.Implies(x > 1, y > 0), z3.Implies(z3.And(x > 0, x < 1), y < 0)]
+    out = [z3.Implies(x == 1, y == 0), z3.Implies(x > 1, y > 0), z3.Implies(z3.And(x > 0, x < 1), y < 0)]
+    # log(exp(t)) == t;  a, b > 0 => log(a / b) == log(a) - log(b)  (instantiated for the
+    # syntactic shapes exp(t) and a / b of the argument; Real.log_exp, Real.log_div)
+    lg = y.decl()
+
+    def is_exp(e):
+        return z3.is_app(e) and e.decl().kind() == z3.Z3_OP_UNINTERPRETED and e.decl().name() == "exp" and e.num_args() == 1
+
+    if is_exp(x):
+        out.append(y == x.arg(0))
+    elif z3.is_app(x) and x.decl().kind() == z3.Z3_OP_DIV and x.num_args() == 2:
+        a, b = x.arg(0), x.arg(1)
+        out.append(z3.Implies(z3.And(a > 0, b > 0), y == lg(a) - lg(b)))
+        if is_exp(a):
+            out.append(lg(a) == a.arg(0))
+    return out
 
 
 @_ax("sqrt")
@@ -417,7 +432,8 @@ def _ax_sigmoid(x, y):
 
 @_ax("softplus")
 def _ax_softplus(x, y):
-    return [y > 0, y > x]
+    # softplus(x) = max(x, 0) + log(1 + exp(-|x|)) <= max(x, 0) + ln 2 < max(x, 0) + 7/10
+    return [y > 0, y > x, y < z3.If(x > 0, x, z3.RealVal(0)) + z3.RealVal("7/10")]
 
 
 @_ax("sign")
@@ -482,6 +498,27 @@ def _mk_fun(base, nparams, sort):
     return lambda *p: f(*[C.to_z3(x) for x in p])
 
 
+_HC_KEEP = []  # keeps hashed z3 terms alive so that their ids stay unique
+
+
+def hashcons_key(pst, tag, dims, body, nidx, sort):
+    """structural key of an index->value function: (tag, extents, sort, term of
+    body at canonical index variables); None when hash-consing is off"""
+    if pst.ghost.get("hashcons") is None:
+        return None
+    probes = [z3.Int(f"hc!{k}") for k in range(nidx)]
+    try:
+        e = C.to_z3(body(*probes))
+    except (z3.Z3Exception, Unsupported, PyRaise):
+        return None
+    _HC_KEEP.append(e)
+    dk = tuple(x if isinstance(x, int) else z3.simplify(x.z).get_id() for x in dims)
+    for x in dims:
+        if not isinstance(x, int):
+            _HC_KEEP.append(z3.simplify(x.z))
+    return (tag, dk, str(sort), e.get_id())
+
+
 def reduce_axis(t: Tensor, axis: int, kind: str):
     """reduce one axis; returns tensor of rank-1 (or scalar value)"""
     t = as_tensor(t)
@@ -535,10 +572,20 @@ def reduce_axis(t: Tensor, axis: int, kind: str):
     dz = dim_z(d)
     if kind == "sum":
         sort = REAL if t.sort == REAL else INT
+        body = lambda *a: C.as_num(t.at(*full_idx(a[:-1], a[-1])))  # noqa: E731
+        # opt-in (pst.ghost["hashcons"] = {}): two sums with syntactically identical
+        # integrands (as terms in canonical index variables) over the same extent are
+        # the same node - the congruence rule in its trivial, solver-free case
+        hkey = hashcons_key(pst, "sum", (d,) + tuple(rest), body, nparams + 1, sort)
+        if hkey is not None and hkey in pst.ghost["hashcons"]:
+            vf = pst.ghost["hashcons"][hkey][0].vf
+            return unwrap0(Tensor(rest, lambda *p: _apply(vf, p), sort, gd))
         base = pst.fresh_name("sum")
         vf = _mk_fun(base, nparams, sort)
-        node = RNode("sum", d, nparams, lambda *a: C.as_num(t.at(*full_idx(a[:-1], a[-1]))), vf, sort=sort)
+        node = RNode("sum", d, nparams, body, vf, sort=sort)
         pst.sums.append(node)
+        if hkey is not None:
+            pst.ghost["hashcons"][hkey] = (node, hkey)
         return unwrap0(Tensor(rest, lambda *p: _apply(vf, p), sort, gd))
     if kind in ("max", "min", "argmax", "argmin"):
         mk = "max" if kind in ("max", "argmax") else "min"
@@ -647,9 +694,19 @@ def close_sums(pst, prove):
                     goal = z3.Implies(z3.And(sk[-1] >= 0, sk[-1] < dz), a.body(*sk) == b.body(*sk))
                 except (z3.Z3Exception, Unsupported, PyRaise):
                     continue
-                v, *_ = prove(pst.pc, pst.qfacts, goal, extra_pool=sk, timeout_ms=3000)
+                # a pair that was not provable is retried only when new facts arrived
+                # (quantified hypotheses, congruence equalities, harness assumptions);
+                # a ground-instantiation 'sat' is enough to give up (quick: no MBQI re-check)
+                fkey = (a_i, b_i, len(pst.qfacts), pst.ghost.get("congr_n", 0), len(pst.pc) - pst.ghost.get("goal_facts", 0))
+                failed_pairs = pst.ghost.setdefault("congr_failed", set())
+                if fkey in failed_pairs:
+                    continue
+                v, *_ = prove(pst.pc, pst.qfacts, goal, extra_pool=sk, timeout_ms=3000, quick=True)
+                if v != "unsat":
+                    failed_pairs.add(fkey)
                 if v == "unsat":
                     a.equal_to.add(b_i)
+                    pst.ghost["congr_n"] = pst.ghost.get("congr_n", 0) + 1
                     if a.nparams == 0:
                         pst.assume(a.vf() == b.vf())
                         if a.af is not None:
@@ -675,6 +732,25 @@ def _norm_index_int(i, d):
     if isinstance(i, int) and i < 0:
         return C.binop("+", d, i)
     return i
+
+
+def _norm_slice_bound(v, d):
+    """slice bound with python semantics for negative values: a symbolic bound
+    that may be negative counts from the end (v + d), decided from the path
+    condition where possible"""
+    v = _norm_index_int(v, d)
+    if isinstance(v, Sym) and v.z.sort() == INT:
+        from .state import prove
+
+        pst = st()
+        r, *_ = prove(pst.pc, pst.qfacts, v.z >= 0, extra_pool=list(pst.pool), timeout_ms=3000, quick=True)
+        if r == "unsat":
+            return v
+        r, *_ = prove(pst.pc, pst.qfacts, v.z < 0, extra_pool=list(pst.pool), timeout_ms=3000, quick=True)
+        if r == "unsat":
+            return C.binop("+", v, d)
+        return C.ite(C.compare("<", v, 0), C.binop("+", v, d), v)
+    return v
 
 
 def index(t: Tensor, idx):
@@ -728,13 +804,24 @@ def index(t: Tensor, idx):
                     src_axis += 1
                     continue
                 raise Unsupported("slice step")
-            lo = 0 if lo is None else _norm_index_int(lo, d)
-            hi = d if hi is None else _norm_index_int(hi, d)
+            lo = 0 if lo is None else _norm_slice_bound(lo, d)
+            hi = d if hi is None else _norm_slice_bound(hi, d)
             # clamp (python slicing semantics) for symbolic bounds
             if isinstance(lo, (Sym,)) or isinstance(hi, Sym) or isinstance(d, Sym):
-                lo_c = C.smax(0, C.smin(lo, d)) if not (isinstance(lo, int) and lo == 0) else 0
-                hi_c = C.smax(0, C.smin(hi, d)) if not (hi is d) else d
-                ln = C.smax(0, C.binop("-", hi_c, lo_c)) if not (isinstance(lo_c, int) and lo_c == 0) else hi_c
+                # bounds that provably need no clamping keep their syntactic form
+                # (x[:k] has length k, x[a:a+m] has length m), as in at_set
+                lo_in = isinstance(lo, (int, Sym)) and not isinstance(lo, bool) and _entails_in_range(lo, d)
+                hi_in = isinstance(hi, (int, Sym)) and not isinstance(hi, bool) and hi is not d and _entails_in_range(hi, d)
+                lo_c = (lo if lo_in else C.smax(0, C.smin(lo, d))) if not (isinstance(lo, int) and lo == 0) else 0
+                hi_c = (hi if hi_in else C.smax(0, C.smin(hi, d))) if not (hi is d) else d
+                if isinstance(lo_c, int) and lo_c == 0:
+                    ln = hi_c
+                elif lo_in and hi_in and _entails_in_range(C.binop("-", hi, lo), d):
+                    ln = C.binop("-", hi_c, lo_c)
+                elif lo_in and hi is d:
+                    ln = C.binop("-", d, lo_c)  # x[a:] with 0 <= a <= d has length d - a
+                else:
+                    ln = C.smax(0, C.binop("-", hi_c, lo_c))
                 lo = lo_c
             else:
                 lo = max(0, min(lo, d))
@@ -863,6 +950,19 @@ def reshape(t, shape):
     n_neg = sum(1 for s in tgt if isinstance(s, int) and s == -1)
     if n_neg > 1:
         raise PyRaise("ValueError", "can only specify one unknown dimension")
+    if n_neg == 1 and all(isinstance(d, int) for d in t.shape) and all(isinstance(d, int) for d in tgt):
+        # all sizes concrete: -1 is the quotient (NumPy raises when it is not integral)
+        tot, known = 1, 1
+        for d in t.shape:
+            tot *= d
+        for d in tgt:
+            if d != -1:
+                known *= d
+        if known == 0 or tot % known != 0:
+            raise ShapeError(f"cannot reshape array of shape {t.shape} into {shape}")
+        tgt = [tot // known if d == -1 else d for d in tgt]
+        shape = tuple(tgt)
+        n_neg = 0
     non1_tgt = [d for d in tgt if not dim_is_one(d)]
     # case 1: only insertion/removal of unit axes (and -1 standing for the single non-unit dim)
     if len(non1_tgt) == len(non1_src):
@@ -920,18 +1020,33 @@ def reshape(t, shape):
                     r = C.binop("%", o[0], d1)
                     return t.at(q, r, *o[1:])
 
-                return Tensor((norm_dim(merged),) + tuple(t.shape[2:]), fn, t.sort, t.gdeps)
+                rows = None
+                if t.rows is not None and t.ndim >= 3:
+                    # the feature axis is untouched: row f of the merged tensor is row (f // B, f % B) of t
+                    def rows(*b):
+                        return t.rows(C.to_z3(C.binop("//", b[0], d1)), C.to_z3(C.binop("%", b[0], d1)), *b[1:])
+
+                return Tensor((norm_dim(merged),) + tuple(t.shape[2:]), fn, t.sort, t.gdeps, rows=rows)
     if len(tgt) == t.ndim + 1:
         # split leading axis: (A*B, ...) -> (A, B, ...)
         a, b = tgt[0], tgt[1]
         if isinstance(a, int) and a == -1:
             raise Unsupported("reshape split with -1")
         prod = norm_dim(C.binop("*", a, b))
+        # a single trailing -1 stands for the (single) remaining extent
+        if len(tgt) == 3 and t.ndim == 2 and isinstance(tgt[2], int) and tgt[2] == -1 and dim_eq(prod, t.shape[0]):
+            tgt[2] = t.shape[1]
         if dim_eq(prod, t.shape[0]) and all(dim_eq(x, y) for x, y in zip(tgt[2:], t.shape[1:])):
             def fn(*o):
                 return t.at(C.binop("+", C.binop("*", o[0], b), o[1]), *o[2:])
 
-            return Tensor(tuple(tgt), fn, t.sort, t.gdeps)
+            rows = None
+            if t.rows is not None and t.ndim >= 2:
+                # the feature axis is untouched: row (i, j) of the result is row i*B + j of t
+                def rows(*bidx):
+                    return t.rows(C.to_z3(C.binop("+", C.binop("*", bidx[0], b), bidx[1])), *bidx[2:])
+
+            return Tensor(tuple(tgt), fn, t.sort, t.gdeps, rows=rows)
     raise Unsupported(f"reshape {t.shape} -> {shape}")
 
 
@@ -1025,11 +1140,61 @@ def stack(ts, axis=0):
 def full(shape, v, sort=None):
     if not isinstance(shape, (tuple, list)):
         shape = (shape,)
-    return Tensor(tuple(shape), lambda *i: v, sort or sort_of_value(v), C.gdeps_of(v))
+    return Tensor(tuple(shape), lambda *i: v, sort if sort is not None else sort_of_value(v), C.gdeps_of(v))
 
 
 def arange(n):
-    return Tensor((n,), lambda i: i, INT)
+    r = Tensor((n,), lambda i: i, INT)
+    r.is_arange = True
+    return r
+
+
+def _entails_in_range(v, d):
+    """True iff 0 <= v <= d follows from the path condition (slice bounds that
+    need no clamping keep their syntactic form, so that x.at[:k].set(y) with
+    y of length k is shape-correct exactly when NumPy/JAX accept it)."""
+    if isinstance(v, int) and isinstance(d, int):
+        return 0 <= v <= d
+    if isinstance(v, bool) or not isinstance(v, (int, Sym)):
+        return False
+    from .state import prove
+
+    pst = st()
+    vz, dz = C.to_z3(v), dim_z(d)
+    if vz.sort() != INT:
+        return False
+    r, *_ = prove(pst.pc, pst.qfacts, z3.And(vz >= 0, vz <= dz), extra_pool=list(pst.pool), timeout_ms=3000, quick=True)
+    return r == "unsat"
+
+
+def _scatter_rows(t, idx, vt, mode):
+    """x.at[arange(B), I1, ...].set(v) with index vectors of length B = x.shape[0]:
+    out[r, j, ...] = v[r] if (j, ...) == (I1[r], ...) else x[r, j, ...]
+    (jax scatter: negative indices wrap, out-of-range updates are dropped)."""
+    first = idx[0]
+    if not (isinstance(first, Tensor) and getattr(first, "is_arange", False) and first.ndim == 1 and dim_eq(first.shape[0], t.shape[0])):
+        return None
+    rest = [as_tensor(i) for i in idx[1:]]
+    if len(idx) != t.ndim or any(i.ndim != 1 or i.sort != INT or not dim_eq(i.shape[0], t.shape[0]) for i in rest):
+        return None
+    vten = as_tensor(vt)
+    if vten.ndim > 1 or (vten.ndim == 1 and not dim_eq(vten.shape[0], t.shape[0])):
+        raise ShapeError(f"at[].set: value shape {vten.shape} does not match {t.shape[0]} index rows")
+
+    def fn(*o):
+        r = o[0]
+        conds = []
+        for a, ix in enumerate(rest, 1):
+            iv = ix.at(r)
+            iv = C.ite(C.compare("<", iv, 0), C.binop("+", iv, t.shape[a]), iv)
+            conds.append(C.compare("==", o[a], iv))
+        newv = vten.at(r) if vten.ndim == 1 else vten.at()
+        old = t.at(*o)
+        if mode == "add":
+            newv = C.binop("+", old, newv)
+        return C.ite(C.band(*conds), newv, old)
+
+    return Tensor(t.shape, fn, join_sorts([t.sort, vten.sort]), t.gdeps | vten.gdeps)
 
 
 def at_set(t, idx, v, mode="set"):
@@ -1066,9 +1231,9 @@ def at_set(t, idx, v, mode="set"):
         d = t.shape[0]
         lo = 0 if s.start is None else _norm_index_int(s.start, d)
         hi = d if s.stop is None else _norm_index_int(s.stop, d)
-        hi_c = C.smin(hi, d)
-        lo_c = C.smax(lo, 0)
-        ln = C.smax(0, C.binop("-", hi_c, lo_c))
+        hi_c = hi if _entails_in_range(hi, d) else C.smin(hi, d)
+        lo_c = lo if _entails_in_range(lo, d) else C.smax(lo, 0)
+        ln = C.smax(0, C.binop("-", hi_c, lo_c)) if not (isinstance(lo_c, int) and lo_c == 0 and hi_c is hi and not isinstance(hi, int)) else hi_c
         vten = as_tensor(vt)
         tgt_shape = (norm_dim(ln),) + t.shape[1:]
         broadcast_shapes(tgt_shape, vten.shape)
@@ -1086,6 +1251,10 @@ def at_set(t, idx, v, mode="set"):
 
         sort = join_sorts([t.sort, vten.sort])
         return Tensor(t.shape, fn, sort, t.gdeps | vten.gdeps)
+    if len(idx) >= 2 and all(isinstance(i, Tensor) for i in idx):
+        r = _scatter_rows(t, idx, vt, mode)
+        if r is not None:
+            return r
     raise Unsupported(f"at[{idx}].{mode}")
 
 
